@@ -1210,7 +1210,9 @@ impl FdlActiveStation {
         self.state
             .transition_pass_token(DoGap::Yes, PassTokenAttempt::First);
 
-        PollDone::waiting_for_delay()
+        // Immediately evaluate PassToken state because the bus is free for immediate
+        // transmission
+        self.do_pass_token(now, phy)
     }
 
     fn do_await_data_response<PHY: ProfibusPhy>(
